@@ -287,7 +287,7 @@ impl Run {
                     return Outcome::Gate(LABELS[i], now[i]);
                 }
             }
-            let probe = name == "ls" && (expect_done || t0.elapsed() > Duration::from_millis(300)) && spins % 20 == 0;
+            let probe = name == "ls" && (expect_done || t0.elapsed() > Duration::from_millis(40)) && spins % 20 == 0;
             if self.task_finished(name, probe) {
                 // an arrival and a completion exclude each other for one task; look once more for a late arrival
                 let now = self.gates.snapshot();
@@ -357,74 +357,109 @@ impl Run {
         verif::trace::emit(json!({"e": "Desync", "run": self.id, "k": self.k, "why": why}));
     }
 
-    /// one gated message of task `name`: (spawn and) release, wait, record
-    #[allow(clippy::too_many_arguments)]
-    fn gated_step(&mut self, name: &str, i: u64, a: &str, x: &str, q_abs: Option<u64>, ticket: usize,
-                  prep: &[(&'static str, usize)], expect: Option<Outcome>, nowait: bool) -> Result<Outcome, String> {
-        let label = label_of(a).unwrap();
-        let mut extra = json!({});
-        if is_start(a) {
-            self.gates.prepare(label, ticket);
-            let snap = self.gates.snapshot();
-            if a == "qfin" {
-                let q = self.query_tick(x, q_abs);
-                extra = json!({"q": q, "qkind": x});
-                self.spawn_query(name, x, q);
-            } else {
-                self.spawn_composite(name, a);
-            }
-            match self.wait_outcome(name, snap, false, Duration::from_secs(5)) {
-                Outcome::Gate(l, n) if l == label && n == ticket => {
-                    self.tasks.get_mut(name).unwrap().parked = Some((label, ticket));
-                }
-                o => return Err(format!("{} {}: did not reach its first gate {} (ticket {}): {:?}", name, a, label, ticket, o)),
-            }
+    fn prepare_all(&mut self, tickets: &[usize; 5]) {
+        for (i, l) in LABELS.iter().enumerate() {
+            self.gates.prepare(l, tickets[i]);
         }
-        let parked = self.tasks.get(name).and_then(|t| t.parked);
-        if parked != Some((label, ticket)) {
-            return Err(format!("{} {}: task is not parked at {} ticket {} but at {:?}", name, a, label, ticket, parked));
-        }
-        for (l, n) in prep {
-            self.gates.prepare(l, *n);
-        }
+    }
+
+    /// begin a composite: spawn the real call and wait until it is parked at its first gate, whatever gate that is.
+    /// `tickets`: the ticket the task receives at each gate.  Ok(false): it returned without any actor message.
+    fn start_task(&mut self, name: &str, a: &str, x: &str, q_abs: Option<u64>, tickets: &[usize; 5]) -> Result<bool, String> {
+        self.prepare_all(tickets);
         let snap = self.gates.snapshot();
-        self.gates.release_to(label, ticket);
-        {
+        if a == "qfin" {
+            let q = self.query_tick(x, q_abs);
+            self.spawn_query(name, x, q);
+        } else {
+            self.spawn_composite(name, a);
+        }
+        match self.wait_outcome(name, snap, false, Duration::from_secs(6)) {
+            Outcome::Gate(l, n) => {
+                self.tasks.get_mut(name).unwrap().parked = Some((l, n));
+                Ok(true)
+            }
+            Outcome::Done => Ok(false),
+            Outcome::Timeout => Err(format!("{} {}: neither parked at a gate nor finished after being started", name, a)),
+        }
+    }
+
+    /// one actor message of task `name`: release it from the gate it is parked at, wait until it is parked again
+    /// (anywhere) or has finished, record what happened.  `tickets`: ticket of its next arrival at each gate.
+    #[allow(clippy::too_many_arguments)]
+    fn message_step(&mut self, name: &str, i: u64, exp: &str, x: &str, tickets: &[usize; 5], hint_done: bool,
+                    nowait: bool, extra_msg: bool) -> Result<Outcome, String> {
+        let (label, tk) = match self.tasks.get(name).and_then(|t| t.parked) {
+            Some(p) => p,
+            None => return Err(format!("{}: not parked", name)),
+        };
+        self.prepare_all(tickets);
+        let snap = self.gates.snapshot();
+        self.gates.release_to(label, tk);
+        let (op, stage, q, qkind) = {
             let t = self.tasks.get_mut(name).unwrap();
             t.parked = None;
             t.stage += 1;
+            (t.op.clone(), t.stage, t.q.clone(), t.qkind.clone())
+        };
+        let g = short(label);
+        // the name the specification gives this message (display and S->I comparison only)
+        let a = match (op.as_str(), g, stage) {
+            ("U", "upd", _) => "upd",
+            ("R", "reset", _) => "reset",
+            ("T", "get", 1) => "tstate",
+            (_, "setfin", _) => "setfin",
+            ("Q", "getfin", _) => "qfin",
+            ("Q", "get", _) => "qstate",
+            (_, "get", _) => "wstate",
+            (_, other, _) => other,
+        };
+        let sub = match name { "rd" => "R", "ls" => "L", "kk" => "K", _ => "-" };
+        let mut extra = json!({"g": g, "op": op, "stage": stage, "exp": exp, "extra": extra_msg, "sub": sub});
+        if op == "Q" {
+            extra["q"] = json!(q);
+            extra["qkind"] = json!(qkind);
         }
         if nowait {
+            extra["nowait"] = json!(true);
             let out = Outcome::Timeout;
-            self.emit_step(name_base(name), i, a, x, &out, json!({"nowait": true}), false);
+            self.emit_step(name_base(name), i, a, x, &out, extra, false);
             return Ok(out);
         }
-        let expect_done = matches!(expect, Some(Outcome::Done));
-        let out = self.wait_outcome(name, snap, expect_done, Duration::from_secs(6));
+        let out = self.wait_outcome(name, snap, hint_done, Duration::from_secs(6));
         if let Outcome::Gate(l, n) = out {
             self.tasks.get_mut(name).unwrap().parked = Some((l, n));
         }
-        if out == Outcome::Done && a == "qstate" {
+        if out == Outcome::Done && op == "Q" {
             let r = self.tasks.get(name).and_then(|t| t.client.clone()).and_then(|c| c.lock().unwrap().clone());
-            extra = match r {
-                Some(Ok((status, body))) => json!({"status": status, "body": body}),
-                Some(Err(e)) => json!({"status": 0, "body": "", "err": e}),
-                None => json!({}),
-            };
-            let t = self.tasks.get(name).unwrap();
-            extra["q"] = json!(t.q);
-            extra["qkind"] = json!(t.qkind);
+            match r {
+                Some(Ok((status, body))) => {
+                    extra["status"] = json!(status);
+                    extra["body"] = json!(body);
+                }
+                Some(Err(e)) => {
+                    extra["status"] = json!(0);
+                    extra["err"] = json!(e);
+                }
+                None => {}
+            }
         }
         self.emit_step(name_base(name), i, a, x, &out, extra, true);
         if out == Outcome::Timeout {
             return Err(format!("{} {}: neither parked nor finished within the time limit", name, a));
         }
-        if let Some(e) = expect {
-            if e != out {
-                return Err(format!("{} {}: expected {:?}, got {:?}", name, a, e, out));
-            }
-        }
         Ok(out)
+    }
+
+    /// a composite that sent no actor message at all
+    fn empty_composite(&mut self, name: &str, i: u64, exp: &str, x: &str) {
+        let op = self.tasks.get(name).map(|t| t.op.clone()).unwrap_or_default();
+        let out = Outcome::Done;
+        self.emit_step(name_base(name), i, "none", x, &out, json!({"g": "none", "op": op, "stage": 1, "exp": exp, "extra": false, "sub": "-"}), true);
+    }
+
+    fn is_parked(&self, name: &str) -> bool {
+        self.tasks.get(name).map(|t| t.parked.is_some()).unwrap_or(false)
     }
 
     fn finish(&mut self) {
@@ -451,6 +486,17 @@ impl Run {
         self.shared.cancel_cancellation_token();
         std::thread::sleep(Duration::from_millis(15));
         verif::trace::emit(json!({"e": "RunEnd", "run": self.id, "tag": self.read_tag()}));
+    }
+}
+
+fn short(label: &str) -> &'static str {
+    match label {
+        L_UPD => "upd",
+        L_RESET => "reset",
+        L_GET => "get",
+        L_SETFIN => "setfin",
+        L_GETFIN => "getfin",
+        _ => "?",
     }
 }
 
@@ -495,31 +541,29 @@ fn new_run(rt: &tokio::runtime::Runtime, id: Value, port: u16) -> Run {
     run
 }
 
-/// S->I: replay exactly the given steps
+/// S->I: drive the tasks in the order of the schedule, one actor message per step.  The schedule says *which task*
+/// moves (and which composite it begins); which gate the task is parked at is the implementation's business: the
+/// driver releases it wherever it is, records the gate, and goes on.  A step for a task that has already returned
+/// is skipped, a composite that has more messages than the schedule gives it is drained before the task's next
+/// composite begins and at the end.  Ticket of a parked task = 1 + index of its next step in the schedule, so
+/// release_to() lets exactly that task through whatever gate it shares with others.
 fn run_replay(rt: &tokio::runtime::Runtime, spec: &Value, port: u16) {
     let mut run = new_run(rt, spec["id"].clone(), port);
     let steps = spec["steps"].as_array().cloned().unwrap_or_default();
-    // ticket of a gated step = its position among the steps of the schedule that pass the same gate
-    let mut tickets: Vec<usize> = Vec::with_capacity(steps.len());
-    let mut cnt: HashMap<&'static str, usize> = HashMap::new();
-    for s in steps.iter() {
-        match label_of(s["a"].as_str().unwrap_or("")) {
-            Some(l) => {
-                let c = cnt.entry(l).or_insert(0);
-                *c += 1;
-                tickets.push(*c);
-            }
-            None => tickets.push(0),
-        }
-    }
     let key = |s: &Value| task_name(s["t"].as_str().unwrap_or(""), s["i"].as_u64().unwrap_or(0));
+    let moves = |s: &Value| {
+        let a = s["a"].as_str().unwrap_or("");
+        label_of(a).is_some() || a == "cont" || a == "drain"
+    };
+    let nsteps = steps.len();
+    let mut tail = 0usize;
     // tag observer (race phases)
     let observing = Arc::new(AtomicBool::new(false));
     let obs: Arc<Mutex<Vec<(i128, Option<String>, u64)>>> = Arc::new(Mutex::new(Vec::new()));
     let mut observer: Option<std::thread::JoinHandle<()>> = None;
     let mut race_t0: Option<Instant> = None;
-    let mut extra_ticket: HashMap<&'static str, usize> = HashMap::new();
-    for (k, s) in steps.iter().enumerate() {
+    let mut stuck = false;
+    'steps: for (k, s) in steps.iter().enumerate() {
         let t = s["t"].as_str().unwrap_or("");
         let i = s["i"].as_u64().unwrap_or(0);
         let a = s["a"].as_str().unwrap_or("");
@@ -564,49 +608,87 @@ fn run_replay(rt: &tokio::runtime::Runtime, spec: &Value, port: u16) {
         match a {
             "tick" => run.tick(),
             "latch" => run.set_latch(x == "on"),
-            "qchan" => {
-                let out = Outcome::Done;
-                run.emit_step("q", i, a, x, &out, json!({}), false);
-            }
-            "wopen" | "wwrite" | "wrename" => {} // file system calls are not gated: they follow wstate
             "sleep" => std::thread::sleep(Duration::from_millis(s["ms"].as_u64().unwrap_or(1))),
+            _ if !moves(s) => {} // qchan, file system calls: not actor messages
             _ => {
                 let name = key(s);
                 let nowait = s["nowait"].as_bool().unwrap_or(false);
-                // where the specification says the task goes next (hist.pc / hist.q.pc); without it, look ahead
-                let next = steps[k + 1..].iter().position(|n| key(n) == name && (label_of(n["a"].as_str().unwrap_or("")).is_some() || n["a"] == "qchan")).map(|p| k + 1 + p);
-                let spec_pc = if t == "q" { s["q"]["pc"].as_str() } else { s["pc"].as_str() };
-                let next_label: Option<&'static str> = match spec_pc {
-                    Some("setfin") => Some(L_SETFIN),
-                    Some("wstate") | Some("qstate") => Some(L_GET),
-                    Some(_) => None,
-                    None => match next {
-                        Some(n) if !is_start(steps[n]["a"].as_str().unwrap_or("")) && steps[n]["a"] != "qchan" => label_of(steps[n]["a"].as_str().unwrap()),
-                        _ => None,
-                    },
-                };
-                let (prep, expect): (Vec<(&'static str, usize)>, Option<Outcome>) = match next_label {
-                    Some(l) => {
-                        // ticket = position of the task's next step among the passes of that gate; a task the schedule never
-                        // releases again gets a ticket behind all of them
-                        let tk = match next {
-                            Some(n) if label_of(steps[n]["a"].as_str().unwrap_or("")) == Some(l) && !is_start(steps[n]["a"].as_str().unwrap_or("")) => tickets[n],
-                            _ => {
-                                let e = extra_ticket.entry(l).or_insert(0);
-                                *e += 1;
-                                cnt.get(l).copied().unwrap_or(0) + *e
-                            }
-                        };
-                        (vec![(l, tk)], Some(Outcome::Gate(l, tk)))
+                // ticket of the task's next arrival: 1 + index of its next step; behind everything if it has none
+                let next = steps[k + 1..].iter().position(|n| key(n) == name && moves(n)).map(|p| k + 1 + p);
+                let nt = match next {
+                    Some(n) => n + 1,
+                    None => {
+                        tail += 1;
+                        nsteps + tail
                     }
-                    None => (vec![], Some(Outcome::Done)),
                 };
-                let expect = if s["lenient"].as_bool().unwrap_or(false) { None } else { expect };
+                // does the schedule expect the composite to return after this message? (only a hint for probing)
+                let hint_done = match next {
+                    Some(n) => is_start(steps[n]["a"].as_str().unwrap_or("")),
+                    None => true,
+                };
+                if is_start(a) {
+                    // the task's previous composite is longer than the schedule thought: let it finish first
+                    let mut guard = 0;
+                    while run.is_parked(&name) && guard < 16 {
+                        guard += 1;
+                        if let Err(why) = run.message_step(&name, i, "-", "-", &[k + 1; 5], false, false, true) {
+                            run.desync(why);
+                            stuck = true;
+                            break 'steps;
+                        }
+                    }
+                    if a == "qfin" {
+                        // queries are served by the listener task: if it still has messages to send (more than the
+                        // schedule gave it) let it finish them; without a serving listener there is no query
+                        let mut guard = 0;
+                        while run.is_parked("ls") && guard < 16 {
+                            guard += 1;
+                            if let Err(why) = run.message_step("ls", 0, "-", "-", &[k + 1; 5], true, false, true) {
+                                run.desync(why);
+                                stuck = true;
+                                break 'steps;
+                            }
+                        }
+                        if !run.tasks.get("ls").map(|t| t.serving).unwrap_or(false) {
+                            verif::trace::emit(json!({"e": "Skip", "run": run.id, "k": run.k, "t": t, "i": i, "a": a}));
+                            continue;
+                        }
+                    }
+                    match run.start_task(&name, a, x, s["q"]["q"].as_u64(), &[k + 1; 5]) {
+                        Ok(true) => {}
+                        Ok(false) => {
+                            run.empty_composite(&name, i, a, x);
+                            continue;
+                        }
+                        Err(why) => {
+                            run.desync(why);
+                            stuck = true;
+                            break 'steps;
+                        }
+                    }
+                } else if a == "drain" {
+                    let mut guard = 0;
+                    while run.is_parked(&name) && guard < 16 {
+                        guard += 1;
+                        if let Err(why) = run.message_step(&name, i, "drain", x, &[nt; 5], false, false, false) {
+                            run.desync(why);
+                            stuck = true;
+                            break 'steps;
+                        }
+                    }
+                    continue;
+                } else if !run.is_parked(&name) {
+                    // the composite returned earlier than the schedule thought
+                    verif::trace::emit(json!({"e": "Skip", "run": run.id, "k": run.k, "t": t, "i": i, "a": a}));
+                    continue;
+                }
                 if nowait && race_t0.is_none() {
                     race_t0 = Some(Instant::now());
                 }
-                if let Err(why) = run.gated_step(&name, i, a, x, s["q"]["q"].as_u64(), tickets[k], &prep, expect, nowait) {
+                if let Err(why) = run.message_step(&name, i, a, x, &[nt; 5], hint_done, nowait, false) {
                     run.desync(why);
+                    stuck = true;
                     break;
                 }
             }
@@ -614,6 +696,29 @@ fn run_replay(rt: &tokio::runtime::Runtime, spec: &Value, port: u16) {
     }
     if let Some(ms) = spec["settle_ms"].as_u64() {
         std::thread::sleep(Duration::from_millis(ms));
+    }
+    // whatever is still parked runs to the end, one message at a time, oldest ticket first
+    let mut guard = 0;
+    while !stuck && guard < 64 {
+        guard += 1;
+        let mut cand: Option<(String, usize)> = None;
+        for (n, t) in run.tasks.iter() {
+            if let Some((_, tk)) = t.parked {
+                if cand.as_ref().map(|c| tk < c.1).unwrap_or(true) {
+                    cand = Some((n.clone(), tk));
+                }
+            }
+        }
+        let name = match cand {
+            Some((n, _)) => n,
+            None => break,
+        };
+        tail += 1;
+        let i = if name.starts_with('q') { name[1..].parse::<u64>().unwrap_or(0) } else { 0 };
+        if let Err(why) = run.message_step(&name, i, "-", "-", &[nsteps + tail; 5], false, false, true) {
+            run.desync(why);
+            break;
+        }
     }
     run.finish();
     if let Some(h) = observer {
@@ -634,7 +739,7 @@ impl Lcg {
 }
 
 /// I->S: the driver chooses at random among what the *implementation* offers (tasks parked at gates, composites
-/// that can start); tickets follow the arrival order, so within one gate the order is FIFO.
+/// that can start).  Nothing is assumed about which gate a task goes to next.
 fn run_auto(rt: &tokio::runtime::Runtime, spec: &Value, port: u16) {
     let mut run = new_run(rt, spec["id"].clone(), port);
     let mut rng = Lcg(spec["seed"].as_u64().unwrap_or(1).wrapping_mul(2654435761).wrapping_add(12345));
@@ -721,28 +826,22 @@ fn run_auto(rt: &tokio::runtime::Runtime, spec: &Value, port: u16) {
             }
             continue;
         }
-        let (a, x, ticket, qabs): (String, String, usize, Option<u64>) = if act == "cont" {
-            let t = run.tasks.get(&name).unwrap();
-            let (l, tk) = t.parked.unwrap();
-            let a = match (l, t.op.as_str()) {
-                (L_SETFIN, _) => "setfin",
-                (L_GET, "Q") => "qstate",
-                (L_GET, _) => "wstate",
-                _ => "unknown",
+        // Tickets of the next arrival at every gate.  A gate that already holds parked tasks hands out either the
+        // ticket just below the smallest parked one (the arriving task can then be released before them: it overtakes
+        // between two consecutive messages of the parked tasks, whatever those messages are) or the next one behind
+        // them.  A beginning composite always arrives ahead, so that it passes its first gate alone.
+        let starting = act != "cont";
+        let mut tickets = [0usize; 5];
+        for (n, l) in LABELS.iter().enumerate() {
+            let min_parked = run.tasks.iter().filter(|(tn, _)| **tn != name).filter_map(|(_, t)| t.parked).filter(|p| p.0 == *l).map(|p| p.1).min();
+            tickets[n] = match min_parked {
+                Some(m) if m > 1 && (starting || rng.next(2) == 0) => m - 1,
+                _ => next_ticket[l],
             };
-            (a.to_string(), if t.op == "Q" { "-".to_string() } else { t.op.clone() }, tk, None)
-        } else {
-            let l = label_of(&act).unwrap();
-            let min_parked = run.tasks.values().filter_map(|t| t.parked).filter(|p| p.0 == l).map(|p| p.1).min();
-            let tk = match min_parked {
-                Some(m) => m - 1,
-                None => {
-                    let t = next_ticket[l];
-                    *next_ticket.get_mut(l).unwrap() += SPACING;
-                    t
-                }
-            };
-            let mut x = "-".to_string();
+        }
+        let i = if name.starts_with('q') { name[1..].parse::<u64>().unwrap_or(0) } else { 0 };
+        let mut x = "-".to_string();
+        if starting {
             let mut qabs = None;
             match name.as_str() {
                 "rd" => { rd_left -= 1; x = "R".into(); }
@@ -760,23 +859,41 @@ fn run_auto(rt: &tokio::runtime::Runtime, spec: &Value, port: u16) {
                     }
                 }
             }
-            (act.clone(), x, tk, qabs)
-        };
-        if a == "unknown" {
-            run.desync(format!("auto: task {} parked at an unexpected gate", name));
-            break;
-        }
-        let i = if name.starts_with('q') { name[1..].parse::<u64>().unwrap_or(0) } else { 0 };
-        // arrivals anywhere get the next ticket of that gate (prepare() re-arms every gate)
-        let prep: Vec<(&'static str, usize)> = LABELS.iter().map(|l| (*l, next_ticket[l])).collect();
-        match run.gated_step(&name, i, &a, &x, qabs, ticket, &prep, None, false) {
-            Ok(out) => {
-                if let Outcome::Gate(l, _) = out {
-                    *next_ticket.get_mut(l).unwrap() += SPACING;
+            match run.start_task(&name, &act, &x, qabs, &tickets) {
+                Ok(true) => {
+                    if let Some((l, n)) = run.tasks.get(&name).and_then(|t| t.parked) {
+                        if n == next_ticket[l] {
+                            *next_ticket.get_mut(l).unwrap() += SPACING;
+                        }
+                    }
+                    // the tickets for the arrival after the first message: recompute (the task itself is now parked)
+                    for (n, l) in LABELS.iter().enumerate() {
+                        let min_parked = run.tasks.iter().filter(|(tn, _)| **tn != name).filter_map(|(_, t)| t.parked).filter(|p| p.0 == *l).map(|p| p.1).min();
+                        tickets[n] = match min_parked {
+                            Some(m) if m > 1 && rng.next(2) == 0 => m - 1,
+                            _ => next_ticket[l],
+                        };
+                    }
                 }
-                if a == "qstate" {
-                    let out = Outcome::Done;
-                    run.emit_step("q", i, "qchan", "-", &out, json!({}), false);
+                Ok(false) => {
+                    run.empty_composite(&name, i, &act, &x);
+                    continue;
+                }
+                Err(why) => {
+                    run.desync(why);
+                    break;
+                }
+            }
+        } else {
+            let t = run.tasks.get(&name).unwrap();
+            x = if t.op == "Q" { "-".to_string() } else { t.op.clone() };
+        }
+        match run.message_step(&name, i, "-", &x, &tickets, false, false, false) {
+            Ok(out) => {
+                if let Outcome::Gate(l, n) = out {
+                    if n == next_ticket[l] {
+                        *next_ticket.get_mut(l).unwrap() += SPACING;
+                    }
                 }
             }
             Err(why) => {
